@@ -5,7 +5,7 @@ namespace TT.Driver
 open TT.Metrics
 
 def parseTarget : String → Option Target
-  | "T" => some .origin | "D" => some .dead | "H" => some .hang | "U" => some .udp | _ => none
+  | "T" => some .origin | "D" => some .dead | "H" => some .hang | "U" => some .udp | "I" => some .icmp | _ => none
 
 def parseC16Op (nd : Nat) (s : String) : Option Op :=
   match s.splitOn "." with
@@ -22,6 +22,7 @@ def parseC16Op (nd : Nat) (s : String) : Option Op :=
     | _ => none
   | ["uu", t, f, n] => do some (.udpUp (← t.toNat?) (c07Meta nd (← f.toNat?)) (max (← n.toNat?) 3))
   | ["ud", t, f, n] => do some (.udpDown (← t.toNat?) (c07Meta nd (← f.toNat?)) (max (← n.toNat?) 3))
+  | ["ic", t, v, n] => do some (.icmpEcho (← t.toNat?) (v == "4") (← n.toNat?))
   | ["a", ms] => do some (.adv (← ms.toNat?))
   | _ => none
 
